@@ -65,7 +65,7 @@ def main():
         sh('git -C /repo worktree remove --force %s' % WT)
         sh('rm -rf /tmp/vfwork-%d /tmp/vfout-%d' % (os.getpid(), os.getpid()))
     for f in ('patch.diff', 'demo.py', 'notes.md'):
-        if os.path.exists(os.path.join(seed, f)):
+        if os.path.exists(os.path.join(seed, f)) and os.path.realpath(seed) != os.path.realpath(out):
             shutil.copy(os.path.join(seed, f), os.path.join(out, f))
     if os.path.exists(os.path.join(out, 'notes.md')):
         meta['needs_to_manifest'] = open(os.path.join(out, 'notes.md')).read()[:1500]
